@@ -244,6 +244,12 @@ def inline_body(facts, key, opaque):
                     done.append("std-model:Iterator::try_for_each")
                     progress = True
                     break
+            if path == "std::iter::Iterator::for_each" and len(t["args"]) == 2 and len(ce.get("args", [])) >= 2 and not t["dest"]["proj"]:
+                cj = model_for_each(ce["args"][0], ce["args"][1], blocks[b].get("span"))
+                _splice(blocks, locals_, b, cj, t["args"], istack, "std-model:Iterator::for_each")
+                done.append("std-model:Iterator::for_each")
+                progress = True
+                break
             if path in CLOSURE_CALLS and len(t["args"]) == 2:
                 if view is None:
                     view = Body(facts, key, dict(j, blocks=blocks, locals=locals_), ssa=False)
@@ -334,6 +340,27 @@ def model_try_for_each(iter_ty, clo_ty, ret_ty, span):
         B([A(_pl(8), {"r": "discr", "place": _pl(7), "ety": ret_ty, "enum": "std::result::Result", "variants": ["Ok", "Err"]})],
           {"t": "switch", "discr": _mv(8), "discr_ty": "isize", "arms": [[0, 0], [1, 5]], "otherwise": 6}),
         B([A(_pl(0), {"r": "use", "op": _mv(7)})], {"t": "return"}),
+        B([], {"t": "unreachable"}),
+    ]
+    return {"kind": "fn", "arg_count": 2, "locals": locals_, "blocks": blocks, "span": span, "debug": []}
+
+
+def model_for_each(iter_ty, clo_ty, span):
+    """MIR model of `Iterator::for_each(iter, f)` (rust-src core/src/iter/traits/iterator.rs: `self.fold((), call(f))` with
+    fold's `while let Some(x) = self.next() { accum = f(accum, x); }`):   loop { match iter.next() { None => return, Some(x) => f(x) } }"""
+    L = lambda ty: {"ty": ty, "mut": True, "model": True}  # noqa: E731
+    locals_ = [L("()"), L(iter_ty), L(clo_ty), L("&mut " + iter_ty), L("std::option::Option<Item>"), L("isize"), L("Item"), L("()"), L("&mut " + clo_ty), L("(Item,)")]
+    A = lambda place, rv: {"s": "assign", "place": place, "rv": rv, "line": (span or {}).get("line"), "model": True}  # noqa: E731
+    B = lambda stmts, term: {"stmts": stmts, "term": term, "cleanup": False, "span": span, "model": True}  # noqa: E731
+    blocks = [
+        B([A(_pl(3), {"r": "ref", "bk": "mut", "place": _pl(1)})], _call("std::iter::Iterator::next", [_mv(3)], 4, 1, "std::iter::Iterator", "next")),
+        B([A(_pl(5), {"r": "discr", "place": _pl(4), "ety": "std::option::Option<Item>", "enum": "std::option::Option", "variants": ["None", "Some"], "discrs": [0, 1]})],
+          {"t": "switch", "discr": _mv(5), "discr_ty": "isize", "arms": [[0, 2], [1, 3]], "otherwise": 4}),
+        B([A(_pl(0), {"r": "aggregate", "ak": "tuple", "ops": []})], {"t": "return"}),
+        B([A(_pl(6), {"r": "use", "op": _mv(4, {"p": "downcast", "name": "Some", "i": 1}, {"p": "field", "i": 0, "name": "0"})}),
+           A(_pl(8), {"r": "ref", "bk": "mut", "place": _pl(2)}),
+           A(_pl(9), {"r": "aggregate", "ak": "tuple", "ops": [_mv(6)]})],
+          _call("std::ops::FnMut::call_mut", [_mv(8), _mv(9)], 7, 0, "std::ops::FnMut", "call_mut")),
         B([], {"t": "unreachable"}),
     ]
     return {"kind": "fn", "arg_count": 2, "locals": locals_, "blocks": blocks, "span": span, "debug": []}
